@@ -242,6 +242,7 @@ impl<A: Z> InfBack for CApi<A> {
     const LABEL: &'static str = A::NAME;
     fn init(wbits: c_int) -> Result<Self, c_int> {
         let mut strm = Box::new(zs());
+        crate::guard::install_current(&mut strm);
         let rc = unsafe { A::inflateInit2(&mut *strm, wbits) };
         if rc != Z_OK {
             return Err(rc);
